@@ -63,7 +63,7 @@ func (c12) Meta() core.Meta {
 			"oracle": "sm2ref (range predicates on math/big, affine [d]G, curve equation)"},
 		Assumptions: []string{"sm2ref is correct (anchors)", "TestPrivateKey is judged on 32-byte strings only (as stated)", "DerivePublic may return an error for any input it does not want (statement: [d]G or an error), but must not panic or return a wrong point",
 			"CheckOnCurve must return false for coordinates that are not exactly 32 bytes"},
-		FaultKinds: []string{"short", "stall", "cand:0", "cand:n-1", "cand:>=n", "wire:bitflip", "wire:+n", "wire:+p", "wire:swap", "wire:truncate", "wire:extend", "wire:offcurve", "reused-receive-buffers", "final-read-carries-EOF"},
+		FaultKinds: []string{"short", "stall", "cand:0", "cand:n-1", "cand:>=n", "wire:bitflip", "wire:+n", "wire:+p", "wire:swap", "wire:truncate", "wire:extend", "wire:offcurve", "wire:residual", "reused-receive-buffers", "final-read-carries-EOF"},
 		ProbeNames: []string{"gen:rejected>=1", "gen:rejected>=3", "gen:cand=0", "priv:boundary", "curve:x>=p", "curve:offcurve", "curve:oncurve", "derive:error-ok"},
 		StepUnit:   "reader calls + library calls",
 	}
@@ -158,6 +158,11 @@ func c12MutateCoord(r *core.Rand, x, y []byte) (nx, ny []byte, kind string) {
 			return ref.Pad32(new(big.Int).Add(sx, ref.SM2P)), ref.Pad32(sy), "wire:+p"
 		}
 		return ref.Pad32(sx), ref.Pad32(sy), "none"
+	}
+	if r.Chance(1, 6) {
+		if rx, ry, kind, ok := residualPoint(r); ok {
+			return ref.Pad32(rx), ref.Pad32(ry), "wire:residual:" + kind
+		}
 	}
 	switch r.Intn(6) {
 	case 0:
@@ -320,7 +325,11 @@ func (c12) Execute(sc core.Script, keep bool) *core.Result {
 		log.Add("VIOLATION %s %s %s: %s", class, role, param, detail)
 	}
 	if s.Note != "" && s.Note != "none" && len(s.Note) > 5 && s.Note[:5] == "wire:" {
-		res.Faults[s.Note]++
+		if len(s.Note) > 13 && s.Note[:13] == "wire:residual" {
+			res.Faults["wire:residual"]++
+		} else {
+			res.Faults[s.Note]++
+		}
 	}
 	switch s.Op {
 	case "GenerateKey":
